@@ -20,6 +20,7 @@ REQUIRED_MONITORS = ["pf_norm_load==closed_form", "limit_load_scatter->0", "mono
 RULE = ("seeded strength medians (10..2000) and scatters (0.01..0.3 decades), load medians chosen so that the closed-form failure "
         "probability Phi((lg L - lg S)/sqrt(sL^2+sS^2)) sweeps 1e-12 .. 1-1e-12, load scatters 0.002..0.5 (ratios over two "
         "orders of magnitude). pf_norm_load is compared with the closed form relatively (|got-exp| <= 1e-6 exp + 1e-15); "
+        "Widened during the build: absolute load scatters down to 1e-30, the far tail of the sampled variant (+-12 sigma, 12001 points), strength scatters down to 1e-4 with load scatters up to 3e4 times larger, a foil instance asked the same fixed probes first. "
         "pf_arbitrary_load is fed a sampled log-normal density on +-8 sigma with 501/2001/4001 points. Non-trivial: both "
         "scatters > 0; distinct = distinct parameter set.")
 ASSUMPTIONS = ["closed form for two independent normal variables in log10 space; scipy.stats.norm is the oracle's only dependency",
